@@ -3,23 +3,22 @@
 // chain with
 //   - the data-tree path given by the `path` struct tags of the like-named GoStruct field chain
 //     (output of a different generator: gogen), and
-//   - goyang's own compilation of the YANG modules (the node must exist, a list's key names must
-//     be exactly the keys of the path element).
+//   - goyang's own compilation of the YANG modules (the node must exist with the right kind, a
+//     list's key names must be exactly the keys of the path element).
 //
-// Key arguments are generated per parameter type; the expected key string is produced by the
-// small formatter in this package (gNMI path conventions), never by ygot.
+// Key arguments are generated per key from the key leaf's resolved YANG type (goyang: ranges,
+// lengths, patterns, enum/identity names, union members, leafrefs followed) and the accessor's Go
+// parameter type; the expected key string is produced by the small formatter in keys.go (gNMI
+// path conventions), never by ygot.
 //
-// The package is linked both into the harness test binary (fixed corpus variants) and into the
-// per-schema checker program that is generated for random schemas.
+// The package is linked into a per-schema checker program (see Main) that is generated for the
+// fixed corpus variants and for every random schema.
 package pathwalk
 
 import (
-	"encoding/base64"
 	"fmt"
-	"path/filepath"
 	"reflect"
 	"sort"
-	"strconv"
 	"strings"
 
 	"github.com/openconfig/goyang/pkg/yang"
@@ -27,38 +26,17 @@ import (
 	"github.com/openconfig/ygot/ygot"
 )
 
-// UnionCtors build values of the generated package's simple-union member types (the types are
-// declared in the generated package, so only generated or package-specific code can name them).
-// A nil entry means the type does not exist in the package.
-type UnionCtors struct {
-	String  func(string) interface{}
-	Int8    func(int8) interface{}
-	Int16   func(int16) interface{}
-	Int32   func(int32) interface{}
-	Int64   func(int64) interface{}
-	Uint8   func(uint8) interface{}
-	Uint16  func(uint16) interface{}
-	Uint32  func(uint32) interface{}
-	Uint64  func(uint64) interface{}
-	Float64 func(float64) interface{}
-	Bool    func(bool) interface{}
-}
-
 // Options configure one walk.
 type Options struct {
 	Root       ygot.PathStruct // DeviceRoot("")
 	RootStruct interface{}     // pointer to the fake-root GoStruct, e.g. &pkg.Device{}
-	YangDir    string          // include path for goyang
-	YangFiles  []string        // root module files
-	Unions     UnionCtors
+	Yang       *YangTree       // goyang compilation (LoadYang)
 	// Choose returns a number in [0, n); every random decision of the walk goes through it.
 	Choose func(label string, n int) int
-	// SimplifiedWildcards: the package was generated with -simplify_wildcard_paths, so an
-	// all-wildcard list element may carry no keys at all instead of "*" for every key.
+	// SimplifiedWildcards: the package was generated with -simplify_wildcard_paths: an all-wildcard
+	// element made by a (non-builder) <List>Any accessor carries no keys at all (ypathgen
+	// GenConfig.SimplifyWildcardPaths) instead of "*" for every key.
 	SimplifiedWildcards bool
-	// MaxDescents bounds, per list accessor group, into how many of the produced list nodes the
-	// walk descends (all produced nodes are checked themselves). Default 2.
-	MaxDescents int
 	// MaxCases stops the walk (marking the report Truncated) after this many chains. Default 200000.
 	MaxCases int
 }
@@ -67,21 +45,24 @@ type Options struct {
 type Elem struct {
 	Name string            `json:"name"`
 	Keys map[string]string `json:"keys,omitempty"`
+	// Alt holds a second accepted spelling of a key value (decimal64: "100" and "100.0").
+	Alt map[string]string `json:"alt,omitempty"`
+	// NoKeys: the keys are all wildcards and are omitted altogether (-simplify_wildcard_paths).
+	NoKeys bool `json:"no_keys,omitempty"`
 }
 
 // Case is one accessor chain that was resolved.
 type Case struct {
-	Chain    string   `json:"chain"`
-	Want     string   `json:"want"`
-	Lists    int      `json:"lists"` // list elements on the chain
-	Classes  []string `json:"classes"`
-	Wildcard bool     `json:"wildcard"`
+	Chain   string   `json:"chain"`
+	Want    string   `json:"want"`
+	Lists   int      `json:"lists"` // list elements on the chain
+	Classes []string `json:"classes"`
 }
 
 // Violation is a chain whose resolved path contradicts the oracle.
 type Violation struct {
 	Chain  string `json:"chain"`
-	Kind   string `json:"kind"` // resolve-error | elem-names | keys | wildcard | not-in-yang | key-names-vs-yang | keyvalueasstring
+	Kind   string `json:"kind"` // resolve-error | elem-names | keys | wildcard | not-in-yang | key-names-vs-yang | api-shape
 	Want   string `json:"want"`
 	Got    string `json:"got"`
 	Detail string `json:"detail"`
@@ -89,13 +70,14 @@ type Violation struct {
 
 // Report is the result of a walk.
 type Report struct {
-	Cases        []Case         `json:"cases"`
-	Violations   []Violation    `json:"violations"`
-	HarnessBugs  []string       `json:"harness_bugs"`
-	Skipped      map[string]int `json:"skipped"` // reasons for accessors that could not be exercised
-	Truncated    bool           `json:"truncated"`
-	Methods      int            `json:"methods"`
-	KeyValueDiff []Violation    `json:"key_value_as_string_diffs"` // secondary differential (not part of C29's statement)
+	Seed        uint64         `json:"seed"`
+	Cases       []Case         `json:"cases"`
+	Violations  []Violation    `json:"violations"`
+	HarnessBugs []string       `json:"harness_bugs"`
+	Skipped     map[string]int `json:"skipped"` // accessors / key values that could not be exercised, by reason
+	Notes       map[string]int `json:"notes"`   // informational counters
+	Truncated   bool           `json:"truncated"`
+	Methods     int            `json:"methods"`
 }
 
 var (
@@ -106,30 +88,60 @@ var (
 type walker struct {
 	o       Options
 	rep     *Report
-	yi      *yangTree
+	yi      *YangTree
 	enumTys []reflect.Type
+	structs []reflect.Type // all GoStruct types reachable from the root
+}
+
+// ctx is the state of one accessor chain.
+type ctx struct {
+	want    []Elem
+	chain   string
+	lists   int
+	classes []string // sticky classes of the chain (sorted, unique)
+}
+
+func (c ctx) with(classes ...string) ctx {
+	set := map[string]bool{}
+	for _, x := range c.classes {
+		set[x] = true
+	}
+	for _, x := range classes {
+		if x != "" {
+			set[x] = true
+		}
+	}
+	out := make([]string, 0, len(set))
+	for x := range set {
+		out = append(out, x)
+	}
+	sort.Strings(out)
+	c.classes = out
+	return c
+}
+
+func (c ctx) extend(chain string, es ...Elem) ctx {
+	c.want = append(append([]Elem{}, c.want...), es...)
+	c.chain = chain
+	return c
 }
 
 // Walk exercises the whole path API below o.Root.
-func Walk(o Options) *Report {
-	if o.MaxDescents <= 0 {
-		o.MaxDescents = 2
-	}
+func Walk(o Options) (rep *Report) {
 	if o.MaxCases <= 0 {
 		o.MaxCases = 200000
 	}
-	w := &walker{o: o, rep: &Report{Skipped: map[string]int{}}}
+	w := &walker{o: o, rep: &Report{Skipped: map[string]int{}, Notes: map[string]int{}}, yi: o.Yang}
 	defer func() {
 		if p := recover(); p != nil {
 			w.rep.HarnessBugs = append(w.rep.HarnessBugs, fmt.Sprintf("panic in walker: %v", p))
 		}
+		rep = w.rep
 	}()
-	yi, err := loadYang(o.YangDir, o.YangFiles)
-	if err != nil {
-		w.rep.HarnessBugs = append(w.rep.HarnessBugs, "goyang: "+err.Error())
+	if o.Yang == nil {
+		w.rep.HarnessBugs = append(w.rep.HarnessBugs, "no goyang tree")
 		return w.rep
 	}
-	w.yi = yi
 	rs := reflect.ValueOf(o.RootStruct)
 	if rs.Kind() != reflect.Ptr || rs.Elem().Kind() != reflect.Struct {
 		w.rep.HarnessBugs = append(w.rep.HarnessBugs, fmt.Sprintf("RootStruct must be a pointer to a struct, have %T", o.RootStruct))
@@ -153,8 +165,36 @@ func Walk(o Options) *Report {
 			}
 		}
 	}
-	w.node(reflect.ValueOf(o.Root), rs.Type().Elem(), nil, "DeviceRoot(\"\")", 0, false, nil)
+	w.collectStructs(rs.Type().Elem(), map[reflect.Type]bool{})
+	root := reflect.ValueOf(o.Root)
+	// trigger of finding F90: a child accessor of the root path struct has the name of a method of
+	// the embedded ygot.DeviceRootBase that ygot.ResolvePath needs (Id, CustomData)
+	for name, sig := range map[string]reflect.Type{"Id": reflect.TypeOf(func() string { return "" }), "CustomData": reflect.TypeOf(func() map[string]interface{} { return nil })} {
+		if m := root.MethodByName(name); m.IsValid() && m.Type() != sig {
+			w.rep.Notes["trigger:root-accessor-shadows-"+name]++
+		}
+	}
+	// the root itself: no elements
+	if gp, _, errs := ygot.ResolvePath(o.Root); len(errs) > 0 || len(gp.GetElem()) != 0 {
+		w.rep.Violations = append(w.rep.Violations, Violation{Chain: `DeviceRoot("")`, Kind: "elem-names", Want: "/", Got: renderPath(gp),
+			Detail: fmt.Sprintf("the device root must resolve to the empty path (errors: %v)", errs)})
+	}
+	w.rep.Cases = append(w.rep.Cases, Case{Chain: `DeviceRoot("")`, Want: "/", Classes: []string{"root"}})
+	w.node(root, rs.Type().Elem(), ctx{chain: `DeviceRoot("")`}, false, nil)
 	return w.rep
+}
+
+func (w *walker) collectStructs(t reflect.Type, seen map[reflect.Type]bool) {
+	if seen[t] {
+		return
+	}
+	seen[t] = true
+	w.structs = append(w.structs, t)
+	for i := 0; i < t.NumField(); i++ {
+		if gf, err := classifyField(t.Field(i)); err == nil && gf.Elem != nil {
+			w.collectStructs(gf.Elem, seen)
+		}
+	}
 }
 
 // ---------------------------------------------------------------------------------------------
@@ -170,10 +210,10 @@ const (
 )
 
 type goField struct {
-	Name string
-	Kind fieldKind
-	Path []string     // first alternative of the path tag, split
-	Elem reflect.Type // struct type of the child (containers and lists)
+	Name  string
+	Kind  fieldKind
+	Paths [][]string   // the alternatives of the path tag, split
+	Elem  reflect.Type // struct type of the child (containers and lists)
 }
 
 // classifyField maps a GoStruct field to its kind and child struct type.
@@ -183,8 +223,9 @@ func classifyField(sf reflect.StructField) (goField, error) {
 	if !ok {
 		return gf, fmt.Errorf("field %s has no path tag", sf.Name)
 	}
-	first := strings.Split(tag, "|")[0]
-	gf.Path = strings.Split(strings.Trim(first, "/"), "/")
+	for _, alt := range strings.Split(tag, "|") {
+		gf.Paths = append(gf.Paths, strings.Split(strings.Trim(alt, "/"), "/"))
+	}
 	t := sf.Type
 	switch {
 	case t.Kind() == reflect.Map && t.Elem().Kind() == reflect.Ptr && t.Elem().Elem().Kind() == reflect.Struct:
@@ -238,6 +279,10 @@ func renderElems(es []Elem) string {
 	var b strings.Builder
 	for _, e := range es {
 		b.WriteString("/" + e.Name)
+		if e.NoKeys {
+			b.WriteString("[no keys]")
+			continue
+		}
 		ks := make([]string, 0, len(e.Keys))
 		for k := range e.Keys {
 			ks = append(ks, k)
@@ -269,25 +314,28 @@ func (w *walker) full() bool {
 	return false
 }
 
-// allWild marks path elements that came from an all-wildcard accessor (for the simplified form).
-type wildInfo struct{ allWild map[int]bool }
+func (w *walker) viol(chain, kind, want, got, detail string) {
+	if len(w.rep.Violations) < 50 {
+		w.rep.Violations = append(w.rep.Violations, Violation{Chain: chain, Kind: kind, Want: want, Got: got, Detail: detail})
+	}
+}
 
-// node checks the path struct ps (its chain resolves to want) and walks its accessors.
-// t is the GoStruct struct type that corresponds to ps, or nil for a leaf.
-func (w *walker) node(ps reflect.Value, t reflect.Type, want []Elem, chain string, lists int, wildcard bool, allWild map[int]bool) {
+// node checks the path struct ps (when doCheck; leafAlts are the alternative last parts of a
+// leaf's path) and walks its accessors. t is the GoStruct struct type that corresponds to ps, or
+// nil for a leaf.
+func (w *walker) node(ps reflect.Value, t reflect.Type, c ctx, doCheck bool, leafAlts [][]string) {
 	if w.full() {
 		return
 	}
-	if len(want) > 0 {
-		w.check(ps, want, chain, lists, wildcard, allWild, t == nil)
+	if doCheck {
+		w.check(ps, c, t == nil, leafAlts)
 	}
 	pt := ps.Type()
 	if t == nil {
 		// a leaf: there must be no further accessors
 		for i := 0; i < pt.NumMethod(); i++ {
 			if m := pt.Method(i); returnsPathStruct(m) && !isBuilderMethod(m, pt) {
-				w.rep.Violations = append(w.rep.Violations, Violation{Chain: chain + "." + m.Name + "(…)", Kind: "elem-names",
-					Detail: "the GoStruct field chain ends in a leaf, but its path struct has a child accessor"})
+				w.viol(c.chain+"."+m.Name+"(…)", "api-shape", "", "", "the GoStruct field chain ends in a leaf, but its path struct has a child accessor")
 			}
 		}
 		return
@@ -296,6 +344,9 @@ func (w *walker) node(ps reflect.Value, t reflect.Type, want []Elem, chain strin
 	for i := 0; i < t.NumField(); i++ {
 		gf, err := classifyField(t.Field(i))
 		if err != nil {
+			if strings.HasPrefix(t.Field(i).Name, "Λ") {
+				continue // annotation fields (-annotations) have no path tag
+			}
 			w.rep.HarnessBugs = append(w.rep.HarnessBugs, fmt.Sprintf("GoStruct %s: %v", t.Name(), err))
 			continue
 		}
@@ -312,8 +363,7 @@ func (w *walker) node(ps reflect.Value, t reflect.Type, want []Elem, chain strin
 		w.rep.Methods++
 		fname, ok := matchField(fields, m.Name)
 		if !ok {
-			w.rep.Violations = append(w.rep.Violations, Violation{Chain: chain + "." + m.Name + "(…)", Kind: "elem-names",
-				Detail: fmt.Sprintf("no like-named field in GoStruct %s (fields: %v)", t.Name(), fieldNames(fields))})
+			w.viol(c.chain+"."+m.Name+"(…)", "api-shape", "", "", fmt.Sprintf("no like-named field in GoStruct %s (fields: %v)", t.Name(), fieldNames(fields)))
 			continue
 		}
 		if _, seen := groups[fname]; !seen {
@@ -324,34 +374,37 @@ func (w *walker) node(ps reflect.Value, t reflect.Type, want []Elem, chain strin
 	sort.Strings(order)
 	for _, fname := range order {
 		gf := fields[fname]
-		childWant := func() []Elem {
-			out := append([]Elem{}, want...)
-			for _, p := range gf.Path {
-				out = append(out, Elem{Name: p})
-			}
-			return out
-		}
 		switch gf.Kind {
 		case fLeaf, fContainer:
 			for _, m := range groups[fname] {
 				if m.Name != fname || m.Type.NumIn() != 1 {
-					w.rep.Violations = append(w.rep.Violations, Violation{Chain: chain + "." + m.Name + "(…)", Kind: "elem-names",
-						Detail: fmt.Sprintf("accessor of non-list field %s takes parameters or has a suffix", fname)})
+					w.viol(c.chain+"."+m.Name+"(…)", "api-shape", "", "", fmt.Sprintf("accessor of non-list field %s takes parameters or has a suffix", fname))
 					continue
 				}
 				r := ps.Method(m.Index).Call(nil)[0]
 				var ct reflect.Type
+				var es []Elem
+				for _, p := range gf.Paths[0] {
+					es = append(es, Elem{Name: p})
+				}
+				cc := c.extend(c.chain+"."+m.Name+"()", es...)
+				var alts [][]string
 				if gf.Kind == fContainer {
 					ct = gf.Elem
+					if len(gf.Paths[0]) > 1 {
+						cc = cc.with("via:compressed-container")
+					}
+				} else {
+					alts = gf.Paths
 				}
-				w.node(r, ct, childWant(), chain+"."+m.Name+"()", lists, wildcard, allWild)
+				w.node(r, ct, cc, true, alts)
 			}
 		case fKeylessList:
 			for _, m := range groups[fname] {
 				w.rep.Skipped["keyless-list-accessor:"+m.Name]++
 			}
 		case fList:
-			w.list(ps, gf, groups[fname], childWant(), chain, lists, wildcard, allWild)
+			w.list(ps, gf, groups[fname], c)
 		}
 	}
 }
@@ -380,17 +433,64 @@ func matchField(fields map[string]goField, method string) (string, bool) {
 	return best, best != ""
 }
 
+// wildSet determines which keys a list accessor wildcards, from its name suffix:
+// "" (none), "Any" (all) or Any<Key>Any<Key>… (ypathgen: WildcardSuffix + key name, in key order).
+func wildSet(suffix string, keys []string, goName map[string]string) (map[string]bool, bool) {
+	wild := map[string]bool{}
+	switch suffix {
+	case "":
+		return wild, true
+	case "Any":
+		for _, k := range keys {
+			wild[k] = true
+		}
+		return wild, true
+	}
+	var hit map[string]bool
+	n := 0
+	for mask := 1; mask < 1<<len(keys)-1; mask++ {
+		s := ""
+		cur := map[string]bool{}
+		for i, k := range keys {
+			if mask&(1<<i) != 0 {
+				s += "Any" + goName[k]
+				cur[k] = true
+			}
+		}
+		if s == suffix {
+			hit = cur
+			n++
+		}
+	}
+	if n != 1 {
+		return nil, false
+	}
+	return hit, true
+}
+
+type listCall struct {
+	m     reflect.Method
+	wild  map[string]bool
+	nWild int
+}
+
 // list exercises the accessors of one list field.
-func (w *walker) list(ps reflect.Value, gf goField, methods []reflect.Method, want []Elem, chain string, lists int, wildcard bool, allWild map[int]bool) {
-	// key names and order come from goyang
+func (w *walker) list(ps reflect.Value, gf goField, methods []reflect.Method, c ctx) {
+	rel := gf.Paths[0]
+	var es []Elem
+	for _, p := range rel {
+		es = append(es, Elem{Name: p})
+	}
+	base := c.extend(c.chain, es...)
 	var names []string
-	for _, e := range want {
+	for _, e := range base.want {
 		names = append(names, e.Name)
 	}
+	wantStr := renderElems(base.want)
+	// key names and order come from goyang
 	ent := w.yi.find(names)
 	if ent == nil || !ent.IsList() {
-		w.rep.Violations = append(w.rep.Violations, Violation{Chain: chain + "." + gf.Name + "…", Kind: "not-in-yang", Want: renderElems(want),
-			Detail: "the GoStruct path tags name a list that goyang's data tree does not have at this path"})
+		w.viol(c.chain+"."+gf.Name+"…", "not-in-yang", wantStr, "", "the GoStruct path tags name a list that goyang's data tree does not have at this path")
 		return
 	}
 	keys := strings.Fields(ent.Key)
@@ -401,84 +501,96 @@ func (w *walker) list(ps reflect.Value, gf goField, methods []reflect.Method, wa
 	goName := keyGoNames(gf.Elem, keys)
 	for _, k := range keys {
 		if goName[k] == "" {
-			w.rep.HarnessBugs = append(w.rep.HarnessBugs, fmt.Sprintf("list %s: no GoStruct field for key %q in %s", renderElems(want), k, gf.Elem.Name()))
+			w.rep.HarnessBugs = append(w.rep.HarnessBugs, fmt.Sprintf("list %s: no GoStruct field for key %q in %s", wantStr, k, gf.Elem.Name()))
 			return
 		}
 	}
-	descents := 0
-	descendedConcrete, descendedWild := false, false
+	var calls []listCall
+	var wildIdx []int
 	for _, m := range methods {
+		ws, ok := wildSet(strings.TrimPrefix(m.Name, gf.Name), keys, goName)
+		if !ok {
+			// the method-name convention is not part of the property: count, do not judge
+			w.rep.Skipped["list-accessor-name-unparsed"]++
+			continue
+		}
+		var supplied int
+		for _, k := range keys {
+			if !ws[k] {
+				supplied++
+			}
+		}
+		if m.Type.NumIn()-1 != supplied {
+			w.viol(c.chain+"."+m.Name+"(…)", "api-shape", wantStr, "", fmt.Sprintf("%d parameters, but the name leaves %d of the keys %v un-wildcarded", m.Type.NumIn()-1, supplied, keys))
+			continue
+		}
+		if len(ws) > 0 {
+			wildIdx = append(wildIdx, len(calls))
+		}
+		calls = append(calls, listCall{m: m, wild: ws, nWild: len(ws)})
+	}
+	// descend below the first fully keyed result and below one randomly chosen wildcard accessor
+	descendWild := -1
+	if len(wildIdx) > 0 {
+		descendWild = wildIdx[w.o.Choose(c.chain+"."+gf.Name+"/descend-wild", len(wildIdx))]
+	}
+	descendedConcrete := false
+	for ci, call := range calls {
 		if w.full() {
 			return
 		}
-		suffix := strings.TrimPrefix(m.Name, gf.Name)
-		wild := map[string]bool{}
-		switch {
-		case suffix == "":
-		case suffix == "Any":
-			for _, k := range keys {
-				wild[k] = true
-			}
-		default:
-			rest := suffix
-			for _, k := range keys {
-				if p := "Any" + goName[k]; strings.HasPrefix(rest, p) {
-					wild[k] = true
-					rest = rest[len(p):]
-				}
-			}
-			if rest != "" || len(wild) == 0 || len(wild) == len(keys) {
-				w.rep.Violations = append(w.rep.Violations, Violation{Chain: chain + "." + m.Name + "(…)", Kind: "wildcard",
-					Detail: fmt.Sprintf("method name does not follow <List>[Any<Key>]… for keys %v (Go names %v)", keys, goName)})
-				continue
+		m := call.m
+		rt := m.Type.Out(0)
+		var builders []reflect.Method
+		for i := 0; i < rt.NumMethod(); i++ {
+			if bm := rt.Method(i); isBuilderMethod(bm, rt) {
+				builders = append(builders, bm)
 			}
 		}
-		var supplied []string
-		for _, k := range keys {
-			if !wild[k] {
-				supplied = append(supplied, k)
-			}
-		}
-		if m.Type.NumIn()-1 != len(supplied) {
-			w.rep.Violations = append(w.rep.Violations, Violation{Chain: chain + "." + m.Name + "(…)", Kind: "keys",
-				Detail: fmt.Sprintf("%d parameters for the non-wildcarded keys %v", m.Type.NumIn()-1, supplied)})
-			continue
-		}
+		isBuilder := len(builders) > 0 && call.nWild == len(keys)
 		rounds := 2
-		if len(supplied) == 0 {
+		switch {
+		case isBuilder:
+			rounds = 3
+		case call.nWild == len(keys):
 			rounds = 1
 		}
 		for round := 0; round < rounds; round++ {
-			args := make([]reflect.Value, len(supplied))
-			el := Elem{Name: want[len(want)-1].Name, Keys: map[string]string{}}
+			var args []reflect.Value
+			el := Elem{Name: rel[len(rel)-1], Keys: map[string]string{}, Alt: map[string]string{}}
 			var argStrs, classes []string
+			used := map[string]bool{}
 			ok := true
-			for i, k := range supplied {
-				v, s, cls, err := w.keyValue(m.Type.In(i+1), fmt.Sprintf("%s.%s#%d.%s", chain, m.Name, round, k))
+			for _, k := range keys {
+				if call.wild[k] {
+					el.Keys[k] = "*"
+					continue
+				}
+				kv, err := w.keyValue(ent, k, m.Type.In(len(args)+1), gf.Elem, fmt.Sprintf("%s.%s#%d.%s", c.chain, m.Name, round, k), used)
 				if err != nil {
 					w.rep.Skipped["key-value:"+err.Error()]++
 					ok = false
 					break
 				}
-				args[i], el.Keys[k] = v, s
-				argStrs = append(argStrs, fmt.Sprintf("%s=%#v", k, v.Interface()))
-				classes = append(classes, cls)
+				args = append(args, kv.v)
+				el.Keys[k] = kv.s
+				if kv.alt != "" {
+					el.Alt[k] = kv.alt
+				}
+				used[kv.s] = true
+				argStrs = append(argStrs, fmt.Sprintf("%s=%s", k, showArg(kv.v)))
+				classes = append(classes, kv.cls...)
 			}
 			if !ok {
 				break
 			}
-			for k := range wild {
-				el.Keys[k] = "*"
-			}
 			r := ps.Method(m.Index).Call(args)[0]
-			cchain := fmt.Sprintf("%s.%s(%s)", chain, m.Name, strings.Join(argStrs, ", "))
+			cchain := fmt.Sprintf("%s.%s(%s)", c.chain, m.Name, strings.Join(argStrs, ", "))
 			// builder API: key setters on the returned (wildcard) node
-			rt := r.Type()
-			for i := 0; i < rt.NumMethod(); i++ {
-				bm := rt.Method(i)
-				if !isBuilderMethod(bm, rt) {
-					continue
-				}
+			if isBuilder {
+				classes = append(classes, "builder")
+			}
+			for _, bm := range builders {
 				var key string
 				for _, k := range keys {
 					if "With"+goName[k] == bm.Name {
@@ -486,103 +598,152 @@ func (w *walker) list(ps reflect.Value, gf goField, methods []reflect.Method, wa
 					}
 				}
 				if key == "" {
-					w.rep.Violations = append(w.rep.Violations, Violation{Chain: cchain + "." + bm.Name + "(…)", Kind: "keys",
-						Detail: fmt.Sprintf("builder method does not name a key of the list (keys %v, Go names %v)", keys, goName)})
+					w.rep.Skipped["builder-method-name-unparsed"]++
 					continue
 				}
-				if w.o.Choose(cchain+"."+bm.Name+"?", 2) == 0 {
+				apply := round == 1 || w.o.Choose(cchain+"."+bm.Name+"?", 2) == 1
+				if !apply {
 					continue
 				}
-				v, s, cls, err := w.keyValue(bm.Type.In(1), cchain+"."+bm.Name)
+				kv, err := w.keyValue(ent, key, bm.Type.In(1), gf.Elem, fmt.Sprintf("%s.%s#%d", cchain, bm.Name, round), used)
 				if err != nil {
 					w.rep.Skipped["key-value:"+err.Error()]++
 					continue
 				}
-				r = r.Method(bm.Index).Call([]reflect.Value{v})[0]
-				el.Keys[key] = s
-				cchain += fmt.Sprintf(".%s(%#v)", bm.Name, v.Interface())
-				classes = append(classes, cls, "builder-key")
+				r = r.Method(bm.Index).Call([]reflect.Value{kv.v})[0]
+				el.Keys[key] = kv.s
+				delete(el.Alt, key)
+				if kv.alt != "" {
+					el.Alt[key] = kv.alt
+				}
+				used[kv.s] = true
+				cchain += fmt.Sprintf(".%s(%s)", bm.Name, showArg(kv.v))
+				classes = append(classes, kv.cls...)
+				classes = append(classes, "builder:with-key")
 			}
-			anyWild, everyWild := false, true
+			nw := 0
 			for _, k := range keys {
-				if el.Keys[k] == "*" && (wild[k] || suffix == "Any") {
-					anyWild = true
-				} else {
-					everyWild = false
+				if el.Keys[k] == "*" && call.wild[k] {
+					nw++
 				}
 			}
-			cw := append(append([]Elem{}, want[:len(want)-1]...), el)
-			aw := allWild
-			if everyWild {
-				aw = map[int]bool{len(cw) - 1: true}
-				for k, v := range allWild {
-					aw[k] = v
+			switch {
+			case nw == len(keys):
+				classes = append(classes, "wildcard:all-keys")
+				if w.o.SimplifiedWildcards && !isBuilder {
+					el.NoKeys = true
+					classes = append(classes, "wildcard:keys-omitted")
 				}
+			case nw > 0:
+				classes = append(classes, "wildcard:partial")
+			default:
+				classes = append(classes, "keys:all-supplied")
 			}
-			// descend into the first concrete and the first wildcarded result, check the others
+			if len(keys) > 1 {
+				classes = append(classes, "list:multi-key")
+			} else {
+				classes = append(classes, "list:single-key")
+			}
+			if len(rel) > 1 {
+				classes = append(classes, "via:list-wrapper")
+			} else {
+				classes = append(classes, "list:unwrapped")
+			}
+			if strings.HasSuffix(ps.Type().Elem().Name(), "Any") {
+				classes = append(classes, "parent:wildcard-type")
+			}
+			cw := append(append([]Elem{}, base.want[:len(base.want)-1]...), el)
+			cc := ctx{want: cw, chain: cchain, lists: c.lists + 1, classes: c.classes}.with(classes...)
 			descend := false
 			switch {
-			case !anyWild && !descendedConcrete:
+			case call.nWild == 0 && !descendedConcrete:
 				descend, descendedConcrete = true, true
-			case anyWild && !descendedWild:
-				descend, descendedWild = true, true
+			case ci == descendWild && round == 0:
+				descend = true
 			}
-			if descend && descents < w.o.MaxDescents {
-				descents++
-				w.nodeWithClasses(r, gf.Elem, cw, cchain, lists+1, wildcard || anyWild, aw, classes)
-			} else {
-				w.checkWithClasses(r, cw, cchain, lists+1, wildcard || anyWild, aw, false, classes)
+			w.check(r, cc, false, nil)
+			if descend {
+				w.node(r, gf.Elem, cc, false, nil)
 			}
 		}
 	}
 }
 
-func (w *walker) nodeWithClasses(ps reflect.Value, t reflect.Type, want []Elem, chain string, lists int, wildcard bool, allWild map[int]bool, classes []string) {
-	if w.full() {
-		return
+func showArg(v reflect.Value) string {
+	x := v.Interface()
+	if v.Kind() == reflect.Ptr && !v.IsNil() && v.Elem().Kind() == reflect.Struct {
+		return fmt.Sprintf("&%#v", v.Elem().Interface())
 	}
-	w.checkWithClasses(ps, want, chain, lists, wildcard, allWild, false, classes)
-	// walk the children without re-checking this node
-	saved := want
-	w.children(ps, t, saved, chain, lists, wildcard, allWild)
+	return fmt.Sprintf("%#v", x)
 }
 
-// children is node() without the check of the node itself.
-func (w *walker) children(ps reflect.Value, t reflect.Type, want []Elem, chain string, lists int, wildcard bool, allWild map[int]bool) {
-	n := len(w.rep.Cases)
-	w.node(ps, t, want, chain, lists, wildcard, allWild)
-	// node() checked ps again: drop that duplicate case (it is the first one appended)
-	if len(w.rep.Cases) > n && w.rep.Cases[n].Chain == chain {
-		w.rep.Cases = append(w.rep.Cases[:n], w.rep.Cases[n+1:]...)
-	}
-}
-
-func (w *walker) check(ps reflect.Value, want []Elem, chain string, lists int, wildcard bool, allWild map[int]bool, leaf bool) {
-	w.checkWithClasses(ps, want, chain, lists, wildcard, allWild, leaf, nil)
-}
-
-// checkWithClasses resolves ps and compares with want and with goyang's tree.
-func (w *walker) checkWithClasses(ps reflect.Value, want []Elem, chain string, lists int, wildcard bool, allWild map[int]bool, leaf bool, classes []string) {
+// check resolves ps and compares with c.want (for a leaf: with any of the path-tag alternatives)
+// and with goyang's tree.
+func (w *walker) check(ps reflect.Value, c ctx, leaf bool, leafAlts [][]string) {
 	p, ok := ps.Interface().(ygot.PathStruct)
 	if !ok {
-		w.rep.HarnessBugs = append(w.rep.HarnessBugs, fmt.Sprintf("%s: %v is not a ygot.PathStruct", chain, ps.Type()))
+		w.rep.HarnessBugs = append(w.rep.HarnessBugs, fmt.Sprintf("%s: %v is not a ygot.PathStruct", c.chain, ps.Type()))
 		return
 	}
-	cs := append([]string{}, classes...)
-	if leaf {
-		cs = append(cs, "leaf")
-	} else {
-		cs = append(cs, "directory")
-	}
-	if wildcard {
-		cs = append(cs, "wildcard")
-	}
-	cs = append(cs, fmt.Sprintf("lists=%d", min(lists, 3)))
-	w.rep.Cases = append(w.rep.Cases, Case{Chain: chain, Want: renderElems(want), Lists: lists, Classes: cs, Wildcard: wildcard})
-	viol := func(kind, got, detail string) {
-		w.rep.Violations = append(w.rep.Violations, Violation{Chain: chain, Kind: kind, Want: renderElems(want), Got: got, Detail: detail})
-	}
 	gp, _, errs := ygot.ResolvePath(p)
+	// a leaf may be reachable under several data-tree paths (list keys: <list>/<key> and
+	// <list>/config/<key>); the GoStruct tag lists them all, any of them is "the path the tags give"
+	want := c.want
+	altNote := ""
+	relLen := 0
+	if len(leafAlts) > 0 {
+		relLen = len(leafAlts[0])
+	}
+	if leaf && len(leafAlts) > 1 && len(errs) == 0 {
+		parent := c.want[:len(c.want)-len(leafAlts[0])]
+		for i, alt := range leafAlts {
+			if len(gp.GetElem()) != len(parent)+len(alt) {
+				continue
+			}
+			same := true
+			for j, a := range alt {
+				if gp.GetElem()[len(parent)+j].GetName() != a {
+					same = false
+				}
+			}
+			if same {
+				want = append([]Elem{}, parent...)
+				for _, a := range alt {
+					want = append(want, Elem{Name: a})
+				}
+				altNote = fmt.Sprintf("leaf:path-alternative-%d-of-%d", i+1, len(leafAlts))
+				relLen = len(alt)
+				break
+			}
+		}
+	}
+	cs := append([]string{}, c.classes...)
+	if leaf {
+		cs = append(cs, "node:leaf")
+		if altNote != "" {
+			cs = append(cs, altNote)
+		}
+		if relLen >= 2 { // a compressed-out config/state container on the way to the leaf
+			switch want[len(want)-2].Name {
+			case "config":
+				cs = append(cs, "via:config")
+			case "state":
+				cs = append(cs, "via:state")
+			}
+		}
+	} else {
+		cs = append(cs, "node:directory")
+	}
+	for _, x := range cs {
+		if strings.HasPrefix(x, "wildcard:") {
+			cs = append(cs, "wildcard:any")
+			break
+		}
+	}
+	cs = append(cs, fmt.Sprintf("lists=%d", min(c.lists, 3)))
+	wantStr := renderElems(want)
+	w.rep.Cases = append(w.rep.Cases, Case{Chain: c.chain, Want: wantStr, Lists: c.lists, Classes: cs})
+	viol := func(kind, got, detail string) { w.viol(c.chain, kind, wantStr, got, detail) }
 	if len(errs) > 0 {
 		viol("resolve-error", "", fmt.Sprintf("ygot.ResolvePath returned errors: %v", errs))
 		return
@@ -603,11 +764,15 @@ func (w *walker) checkWithClasses(ps reflect.Value, want []Elem, chain string, l
 			return
 		}
 		wk, gk := want[i].Keys, e.GetKey()
-		if len(wk) == 0 && len(gk) == 0 {
+		if want[i].NoKeys {
+			if len(gk) != 0 {
+				viol("wildcard", got, fmt.Sprintf("element %q: -simplify_wildcard_paths and every key wildcarded by a non-builder accessor, but keys %v are present", e.GetName(), gk))
+				return
+			}
 			continue
 		}
-		if len(gk) == 0 && allWild[i] && w.o.SimplifiedWildcards {
-			continue // -simplify_wildcard_paths: no keys at all == every key wildcarded
+		if len(wk) == 0 && len(gk) == 0 {
+			continue
 		}
 		if len(wk) != len(gk) {
 			viol("keys", got, fmt.Sprintf("element %q has keys %v, expected %v", e.GetName(), gk, wk))
@@ -622,7 +787,7 @@ func (w *walker) checkWithClasses(ps reflect.Value, want []Elem, chain string, l
 			case wv == "*" && gv != "*":
 				viol("wildcard", got, fmt.Sprintf("key %q of %q was left as a wildcard but appears as %q", k, e.GetName(), gv))
 				return
-			case wv != gv:
+			case wv != gv && !(want[i].Alt[k] != "" && want[i].Alt[k] == gv):
 				viol("keys", got, fmt.Sprintf("key %q of %q is %q, the value passed to the accessor is %q in gNMI string form", k, e.GetName(), gv, wv))
 				return
 			}
@@ -638,15 +803,22 @@ func (w *walker) checkWithClasses(ps reflect.Value, want []Elem, chain string, l
 		viol("not-in-yang", got, fmt.Sprintf("node kind mismatch: the path struct is a leaf=%v, goyang says kind %v", leaf, ent.Kind))
 		return
 	}
-	// every element with keys must be a list with exactly those key names
+	// every element with keys must be a list with exactly those key names; keyed lists must carry keys
 	for i := range want {
 		e := w.yi.find(names[:i+1])
 		if e == nil {
 			continue
 		}
 		ks := strings.Fields(e.Key)
+		if want[i].NoKeys {
+			if !e.IsList() {
+				viol("key-names-vs-yang", got, fmt.Sprintf("element %q is treated as a list but is %v in YANG", names[i], e.Kind))
+				return
+			}
+			continue
+		}
 		if len(want[i].Keys) == 0 {
-			if e.IsList() && len(ks) > 0 && !(allWild[i] && w.o.SimplifiedWildcards) {
+			if e.IsList() && len(ks) > 0 {
 				viol("key-names-vs-yang", got, fmt.Sprintf("element %q is a keyed list (keys %v) but carries no keys", names[i], ks))
 				return
 			}
@@ -665,262 +837,4 @@ func (w *walker) checkWithClasses(ps reflect.Value, want []Elem, chain string, l
 	}
 }
 
-// ---------------------------------------------------------------------------------------------
-// key values
-
-var stringKeys = []string{"a", "eth0/1", "x y", "a]b[c", "k=v", "ü-ß", `back\slash`, "0", "-", "Ethernet1/2.3", "{x}", "q\"uote", "tab\there", "very-long-" + "0123456789012345678901234567890123456789"}
-
-var floatKeys = []struct {
-	v float64
-	s string
-}{{1.5, "1.5"}, {-0.25, "-0.25"}, {100, "100"}, {0, "0"}, {12.125, "12.125"}, {-7, "-7"}}
-
-// keyValue generates an argument of type t and the gNMI string form it must have in the path.
-func (w *walker) keyValue(t reflect.Type, label string) (reflect.Value, string, string, error) {
-	c := func(n int) int { return w.o.Choose(label, n) }
-	if t.Implements(goEnumType) && t.Kind() == reflect.Int64 {
-		return w.enumValue(t, label)
-	}
-	switch t.Kind() {
-	case reflect.String:
-		s := stringKeys[c(len(stringKeys))]
-		cls := "key:string"
-		if strings.ContainsAny(s, `/[]= \"`+"\t") {
-			cls = "key:string-needs-escaping"
-		}
-		return reflect.ValueOf(s).Convert(t), s, cls, nil
-	case reflect.Int8, reflect.Int16, reflect.Int32, reflect.Int64, reflect.Int:
-		bits := t.Bits()
-		lo, hi := int64(-1)<<(bits-1), int64(1)<<(bits-1)-1
-		cands := []int64{0, 1, -1, lo, hi, 42, -100 % (hi + 1)}
-		n := cands[c(len(cands))]
-		v := reflect.New(t).Elem()
-		v.SetInt(n)
-		return v, strconv.FormatInt(n, 10), fmt.Sprintf("key:int%d", bits), nil
-	case reflect.Uint8, reflect.Uint16, reflect.Uint32, reflect.Uint64, reflect.Uint:
-		bits := t.Bits()
-		hi := uint64(1)<<uint(bits) - 1
-		if bits == 64 {
-			hi = ^uint64(0)
-		}
-		cands := []uint64{0, 1, hi, 42 % (hi + 1 | 1), hi / 2}
-		n := cands[c(len(cands))]
-		v := reflect.New(t).Elem()
-		v.SetUint(n)
-		return v, strconv.FormatUint(n, 10), fmt.Sprintf("key:uint%d", bits), nil
-	case reflect.Bool:
-		b := c(2) == 1
-		v := reflect.New(t).Elem()
-		v.SetBool(b)
-		return v, map[bool]string{true: "true", false: "false"}[b], "key:bool", nil
-	case reflect.Float64:
-		f := floatKeys[c(len(floatKeys))]
-		v := reflect.New(t).Elem()
-		v.SetFloat(f.v)
-		return v, f.s, "key:decimal64", nil
-	case reflect.Slice:
-		if t.Elem().Kind() == reflect.Uint8 {
-			raw := [][]byte{{0}, {1, 2, 3}, []byte("hello"), {0xff, 0xfe}}[c(4)]
-			return reflect.ValueOf(raw).Convert(t), base64.StdEncoding.EncodeToString(raw), "key:binary", nil
-		}
-	case reflect.Interface:
-		return w.unionValue(t, label)
-	}
-	return reflect.Value{}, "", "", fmt.Errorf("unsupported key parameter type %v", t)
-}
-
-func (w *walker) enumValue(t reflect.Type, label string) (reflect.Value, string, string, error) {
-	zero := reflect.New(t).Elem()
-	m := zero.MethodByName("ΛMap")
-	if !m.IsValid() {
-		return reflect.Value{}, "", "", fmt.Errorf("enum type %v without ΛMap", t)
-	}
-	defs, ok := m.Call(nil)[0].Interface().(map[string]map[int64]ygot.EnumDefinition)
-	if !ok {
-		return reflect.Value{}, "", "", fmt.Errorf("enum type %v: unexpected ΛMap type", t)
-	}
-	byVal := defs[t.Name()]
-	var vals []int64
-	for v := range byVal {
-		if v != 0 {
-			vals = append(vals, v)
-		}
-	}
-	if len(vals) == 0 {
-		return reflect.Value{}, "", "", fmt.Errorf("enum type %v has no values", t)
-	}
-	sort.Slice(vals, func(i, j int) bool { return vals[i] < vals[j] })
-	n := vals[w.o.Choose(label, len(vals))]
-	v := reflect.New(t).Elem()
-	v.SetInt(n)
-	return v, byVal[n].Name, "key:enum", nil
-}
-
-// unionValue builds a value of one of the member types of a simple union.
-func (w *walker) unionValue(t reflect.Type, label string) (reflect.Value, string, string, error) {
-	type cand struct {
-		v   reflect.Value
-		s   string
-		cls string
-	}
-	var cs []cand
-	add := func(x interface{}, s, cls string) {
-		if x == nil {
-			return
-		}
-		if rv := reflect.ValueOf(x); rv.Type().Implements(t) {
-			cs = append(cs, cand{rv, s, cls})
-		}
-	}
-	u := w.o.Unions
-	pick := func(n int, sub string) int { return w.o.Choose(label+"/"+sub, n) }
-	if u.String != nil {
-		s := stringKeys[pick(len(stringKeys), "string")]
-		add(u.String(s), s, "key:union-string")
-	}
-	if u.Int8 != nil {
-		n := []int8{0, -128, 127, 5}[pick(4, "int8")]
-		add(u.Int8(n), strconv.FormatInt(int64(n), 10), "key:union-int")
-	}
-	if u.Int16 != nil {
-		n := []int16{0, -32768, 32767, 5}[pick(4, "int16")]
-		add(u.Int16(n), strconv.FormatInt(int64(n), 10), "key:union-int")
-	}
-	if u.Int32 != nil {
-		n := []int32{0, -2147483648, 2147483647, 5}[pick(4, "int32")]
-		add(u.Int32(n), strconv.FormatInt(int64(n), 10), "key:union-int")
-	}
-	if u.Int64 != nil {
-		n := []int64{0, -9223372036854775808, 9223372036854775807, 5}[pick(4, "int64")]
-		add(u.Int64(n), strconv.FormatInt(n, 10), "key:union-int")
-	}
-	if u.Uint8 != nil {
-		n := []uint8{0, 255, 7}[pick(3, "uint8")]
-		add(u.Uint8(n), strconv.FormatUint(uint64(n), 10), "key:union-uint")
-	}
-	if u.Uint16 != nil {
-		n := []uint16{0, 65535, 7}[pick(3, "uint16")]
-		add(u.Uint16(n), strconv.FormatUint(uint64(n), 10), "key:union-uint")
-	}
-	if u.Uint32 != nil {
-		n := []uint32{0, 4294967295, 7}[pick(3, "uint32")]
-		add(u.Uint32(n), strconv.FormatUint(uint64(n), 10), "key:union-uint")
-	}
-	if u.Uint64 != nil {
-		n := []uint64{0, 18446744073709551615, 7}[pick(3, "uint64")]
-		add(u.Uint64(n), strconv.FormatUint(n, 10), "key:union-uint")
-	}
-	if u.Float64 != nil {
-		f := floatKeys[pick(len(floatKeys), "float")]
-		add(u.Float64(f.v), f.s, "key:union-decimal64")
-	}
-	if u.Bool != nil {
-		b := pick(2, "bool") == 1
-		add(u.Bool(b), map[bool]string{true: "true", false: "false"}[b], "key:union-bool")
-	}
-	for _, et := range w.enumTys {
-		if et.Implements(t) && et.Kind() == reflect.Int64 {
-			if v, s, _, err := w.enumValue(et, label+"/"+et.Name()); err == nil {
-				cs = append(cs, cand{v, s, "key:union-enum"})
-			}
-		}
-	}
-	if len(cs) == 0 {
-		return reflect.Value{}, "", "", fmt.Errorf("no constructible member for union %v", t)
-	}
-	c := cs[w.o.Choose(label+"/member", len(cs))]
-	// the argument must have the interface type of the parameter
-	v := reflect.New(t).Elem()
-	v.Set(c.v)
-	return v, c.s, c.cls, nil
-}
-
-// ---------------------------------------------------------------------------------------------
-// goyang side
-
-type yangTree struct {
-	roots []*yang.Entry
-}
-
-func loadYang(dir string, files []string) (*yangTree, error) {
-	ms := yang.NewModules()
-	if dir != "" {
-		ms.AddPath(filepath.Join(dir, "..."))
-	}
-	for _, f := range files {
-		if err := ms.Read(f); err != nil {
-			return nil, fmt.Errorf("read %s: %v", f, err)
-		}
-	}
-	if errs := ms.Process(); len(errs) > 0 {
-		return nil, fmt.Errorf("process: %v", errs)
-	}
-	var names []string
-	seen := map[string]bool{}
-	for _, m := range ms.Modules {
-		if !seen[m.Name] {
-			seen[m.Name] = true
-			names = append(names, m.Name)
-		}
-	}
-	sort.Strings(names)
-	yt := &yangTree{}
-	for _, n := range names {
-		yt.roots = append(yt.roots, yang.ToEntry(ms.Modules[n]))
-	}
-	return yt, nil
-}
-
-// child finds a data-tree child by name; choice and case nodes are transparent.
-func child(e *yang.Entry, name string) *yang.Entry {
-	if c, ok := e.Dir[name]; ok && !c.IsChoice() && !c.IsCase() {
-		return c
-	}
-	for _, c := range e.Dir {
-		if c.IsChoice() || c.IsCase() {
-			if r := child(c, name); r != nil {
-				return r
-			}
-		}
-	}
-	return nil
-}
-
-// find resolves a data-tree path from the module roots.
-func (yt *yangTree) find(names []string) *yang.Entry {
-	if len(names) == 0 {
-		return nil
-	}
-	for _, r := range yt.roots {
-		e := r
-		for _, n := range names {
-			if e = child(e, n); e == nil {
-				break
-			}
-		}
-		if e != nil && e.RPC == nil {
-			return e
-		}
-	}
-	return nil
-}
-
-// FormatKeyValue is the harness formatter for a key value (used to compare with
-// ygot.KeyValueAsString as a secondary differential).
-func FormatKeyValue(v interface{}) (string, bool) {
-	rv := reflect.ValueOf(v)
-	switch rv.Kind() {
-	case reflect.String:
-		return rv.String(), true
-	case reflect.Int8, reflect.Int16, reflect.Int32, reflect.Int, reflect.Int64:
-		if rv.Type().Implements(goEnumType) {
-			return "", false
-		}
-		return strconv.FormatInt(rv.Int(), 10), true
-	case reflect.Uint8, reflect.Uint16, reflect.Uint32, reflect.Uint, reflect.Uint64:
-		return strconv.FormatUint(rv.Uint(), 10), true
-	case reflect.Bool:
-		return strconv.FormatBool(rv.Bool()), true
-	}
-	return "", false
-}
+var _ = yang.CamelCase
